@@ -5,6 +5,7 @@
   (harness/cmd/vh/c11.go); the theorems below hold for every byte stream, every nesting and every size field.
 -/
 import Imeta.Lemmas.Bmff
+import Imeta.Lemmas.BmffTotal
 namespace Imeta.Props.C11
 open Imeta Imeta.Bmff
 
@@ -335,6 +336,18 @@ theorem C11_readFTYP_exact (s : St) (hs : s.chain = []) (hok : isOk (readFTYP s)
     ((readFTYP s).2.pos : Int) = s.pos + declSize (s.rest.take 16) := by
   rw [readFTYP_eq] at hok ⊢
   exact top_box_exact ftypBody Pres.ftypBody Closes.ftypBody s hs hok hfit
+
+/-! ### totality: no panic outcome, no loop runs out of fuel -/
+
+theorem NP.ftypBody (t : Bytes) : NP (ftypBody t) := by unfold Props.C11.ftypBody; np
+
+/-- ReadMetadata and ReadFTYP of the model return (a value or an error) for every stream: `head` is only used inside a
+box, and every inner-box loop ends within (unread bytes)/8 + 2 rounds because a round that goes on has consumed a box
+header. -/
+theorem C11_readMetadata_total (s : St) (hs : s.chain = []) : ¬ isPanic (readMetadata s).1 := readMetadata_total s hs
+
+theorem C11_readFTYP_total (s : St) (hs : s.chain = []) : ¬ isPanic (readFTYP s).1 := by
+  rw [readFTYP_eq]; exact topBox_total ftypBody NP.ftypBody s hs
 
 /-! ### the hypotheses are satisfiable: concrete streams -/
 
